@@ -5,6 +5,7 @@ mod app;
 mod common;
 mod ledger;
 mod rng;
+mod symbase;
 
 use std::io::Write;
 
@@ -47,6 +48,19 @@ fn main() {
                 let c = ledger::gen_window_case(&mut cr, if i < 402 { Some(i) } else { None });
                 let mut s = String::new();
                 ledger::run_case(&format!("W{}-{}", seed, i), &c, &mut s);
+                w.write_all(s.as_bytes()).unwrap();
+            }
+        }
+        "symbase" => {
+            let mut r = rng::Rng::new(seed ^ 0xC16);
+            for i in 0..count {
+                let mut cr = r.fork();
+                let mut s = String::new();
+                if i % 10 == 9 {
+                    symbase::run_parse_case(&format!("Y{}-{}", seed, i), &mut cr, &mut s);
+                } else {
+                    symbase::run_case(&format!("Y{}-{}", seed, i), &mut cr, &mut s);
+                }
                 w.write_all(s.as_bytes()).unwrap();
             }
         }
